@@ -860,6 +860,10 @@ struct ArcInst {
     }
     static void sweep(int, char**, std::string& o) { o += "unsupported"; }
 };
+struct NullInst {
+    static void pt(int, char**, std::string& o) { o += "dead"; }
+    static void sweep(int, char**, std::string& o) { o += "dead"; }
+};
 #define ENTRY(ID, ...) { ID, &__VA_ARGS__::pt, &__VA_ARGS__::sweep }
 '''
 
